@@ -173,3 +173,18 @@ contract(f"{SWM}::SoftwareManager.get_open_ports", props=["C13"], bounded=2,
                    "forall(j, 0, len(self.port_protocol_mapping), implies(sw_running(dict_val(self.port_protocol_mapping, j)),"
                    " dict_val(self.port_protocol_mapping, j).port in result))")],
          modifies=[], allocates=True)
+
+# ---- every request of a service / application carries its operating-state rule ("only running software works") ------------------------------
+from pyvc.contracts import scan  # noqa: E402
+from pyvc import scans as _scans  # noqa: E402
+scan("C13", "service-routes-gated", lambda: _scans.routes_gated("Service", {"Service:disable": "disabling is allowed in every state (Service.disable has no source-state condition, proved above)"}))
+scan("C13", "application-routes-gated", lambda: _scans.routes_gated("Application", {}))
+
+# ---- a port is open exactly while software bound to it is running ------------------------------------------------------------------------------
+contract(f"{SWM}::SoftwareManager.check_port_is_open", props=["C13"],
+         ensures=[("open_iff_running_software_bound_to_it",
+                   "result == exists(j, 0, len(self.software), dict_val(self.software, j).port == port and dict_val(self.software, j).protocol == protocol"
+                   " and sw_running(dict_val(self.software, j)))")],
+         modifies=[],
+         loops={0: {"inv": [("none_so_far", "forall(j, 0, _i, not (dict_val(self.software, j).port == port and dict_val(self.software, j).protocol == protocol"
+                                            " and sw_running(dict_val(self.software, j))))")]}})
